@@ -26,9 +26,10 @@ type rCase struct {
 	Fields  []rField `json:"fields"`
 	Docs    []eDoc   `json:"docs"`
 	Ops     []rOp    `json:"ops"`
-	Batch   int      `json:"batch,omitempty"`   // > 1: documents go to AddDocuments in groups of up to Batch; the generator puts a refused document last in its group
-	Rebuild int      `json:"rebuild,omitempty"` // > 0: BuildIndexer() is also called after the first Rebuild documents; the builder goes on, the final build is queried
-	Bulk    int      `json:"bulk,omitempty"`    // that many documents 0, 1, 2, ... `field 0 in [1]` added first (SpecRr.bulk_docs)
+	Batch   int      `json:"batch,omitempty"`    // > 1: documents go to AddDocuments in groups of up to Batch; the generator puts a refused document last in its group
+	Rebuild int      `json:"rebuild,omitempty"`  // > 0: BuildIndexer() is also called after the first Rebuild documents; the builder goes on, the final build is queried
+	ViaJSON bool     `json:"via_json,omitempty"` // every document goes through its own JSON encoding (json.Marshal, json.Unmarshal into a new Document) before it is added
+	Bulk    int      `json:"bulk,omitempty"`     // that many documents 0, 1, 2, ... `field 0 in [1]` added first (SpecRr.bulk_docs)
 }
 
 func bulkDoc(i int) eDoc {
@@ -46,6 +47,21 @@ func buildRoaring(c *rCase) (*roaringidx.IvtBEIndexer, []string, int) {
 			panic(err)
 		}
 	}
+	mkDoc := func(d eDoc) *be.Document {
+		doc := d.build()
+		if !c.ViaJSON {
+			return doc
+		}
+		data, err := json.Marshal(doc)
+		if err != nil {
+			panic(err)
+		}
+		dec := &be.Document{}
+		if err := json.Unmarshal(data, dec); err != nil {
+			panic(err)
+		}
+		return dec
+	}
 	var adds []string
 	nok := 0
 	for i := 0; i < c.Bulk; i++ {
@@ -62,7 +78,7 @@ func buildRoaring(c *rCase) (*roaringidx.IvtBEIndexer, []string, int) {
 			var group []*be.Document
 			j := i
 			for ; j < len(c.Docs) && len(group) < c.Batch; j++ {
-				group = append(group, c.Docs[j].build())
+				group = append(group, mkDoc(c.Docs[j]))
 			}
 			var err error
 			p := safeCall(func() { err = b.AddDocuments(group...) })
@@ -81,7 +97,7 @@ func buildRoaring(c *rCase) (*roaringidx.IvtBEIndexer, []string, int) {
 			continue
 		}
 		var err error
-		p := safeCall(func() { err = b.AddDocument(c.Docs[i].build()) })
+		p := safeCall(func() { err = b.AddDocument(mkDoc(c.Docs[i])) })
 		switch {
 		case p:
 			adds = append(adds, "IAddPanic")
@@ -312,6 +328,15 @@ func genRrCase(r *Rand, nFields int, acPct int, hintPct int, nOps int, nScanners
 		used[d.ID] = true
 		c.Docs = append(c.Docs, d)
 	}
+	if len(c.Docs) > 1 && r.Chance(12) { // an id added again with other (here: the first document's) conjunctions, or fewer of its own
+		d := c.Docs[r.Intn(len(c.Docs))]
+		if r.Bool() && len(d.Cons) > 1 {
+			d.Cons = d.Cons[:1]
+		} else {
+			d.Cons = c.Docs[0].Cons
+		}
+		c.Docs = append(c.Docs, d)
+	}
 	if len(c.Docs) > 1 && r.Chance(20) { // add, build, add, build on one builder: the final build must know every document
 		c.Rebuild = 1 + r.Intn(len(c.Docs)-1)
 	}
@@ -358,7 +383,7 @@ func genRrCase(r *Rand, nFields int, acPct int, hintPct int, nOps int, nScanners
 	return c
 }
 
-const rrRule = "seeded roaring cases: 1..5 configured fields (0 fields rarely), document sets as in C01 with ids up to +-(2^55-1), operation sequences over 1..4 scanners sharing one index (Reset, WithHint with known/unknown/out-of-range ids, Retrieve, RetrieveDocs, GetRawResult, also without Reset in between; a third more cases over a pattern-container field; a third more cases with failing retrievals (unsupported value on one field) injected on other scanners); non-trivial = some retrieval returns a non-empty proper subset of the accepted documents; distinct = distinct input"
+const rrRule = "seeded roaring cases: 1..5 configured fields (0 fields rarely), document sets as in C01 with ids up to +-(2^55-1), operation sequences over 1..4 scanners sharing one index (Reset, WithHint with known/unknown/out-of-range ids, Retrieve, RetrieveDocs, GetRawResult, also without Reset in between; a third more cases over a pattern-container field; a third more cases with failing retrievals (unsupported value on one field) injected on other scanners); document ids added again with other or fewer conjunctions (outside the specification's domain: decided by the model leg), indexes of catch-all documents only, include lists that are empty; non-trivial = some retrieval returns a non-empty proper subset of the accepted documents; distinct = distinct input"
 
 func init() {
 	mk := func(hintPct int, zeroFields bool) func(tier string, r *Rand, add func(in interface{})) {
@@ -421,6 +446,57 @@ func init() {
 				five, six := []eAssign{{F: 0, V: tvInt("int", 5)}}, []eAssign{{F: 0, V: tvInt("int", 6)}}
 				c.Ops = []rOp{{S: 0, Op: "docs", A: five}, {S: 1, Op: "hint", Hint: []int64{10, 2, 77}}, {S: 1, Op: "docs", A: five}, {S: 1, Op: "raw"},
 					{S: 0, Op: "reset"}, {S: 0, Op: "hint", Hint: []int64{10, 12}}, {S: 0, Op: "retrieve", A: six}, {S: 0, Op: "raw"}, {S: 2, Op: "hint", Hint: []int64{12}}, {S: 2, Op: "retrieve", A: five}}
+				add(c)
+			}
+			// the builder has no delete: a document id added AGAIN (here with fewer conjunctions) leaves the conjunction
+			// ids of its earlier version in the index; hinted scans must still cover every position of that id
+			{
+				in := func(f int, vs ...int64) eExpr {
+					l := make([]TV, len(vs))
+					for i, v := range vs {
+						l[i] = tvInt("int", v)
+					}
+					return eExpr{F: f, Inc: true, V: tvSlice("[]int", l...)}
+				}
+				c := rCase{Fields: []rField{{F: 0, Cont: "default"}, {F: 1, Cont: "default"}}}
+				c.Docs = []eDoc{
+					{ID: 7, Cons: []eConj{{in(0, 1)}, {in(1, 5)}, {in(1, 6)}}},
+					{ID: 9, Cons: []eConj{{in(1, 5)}}},
+					{ID: 7, Cons: []eConj{{in(0, 1, 2)}}},
+					{ID: 8, Cons: []eConj{{in(0, 3)}, {in(0, 4)}}},
+					{ID: 8, Cons: []eConj{{in(0, 3)}}},
+				}
+				for i, q := range [][]eAssign{{{F: 0, V: tvInt("int", 3)}, {F: 1, V: tvInt("int", 5)}}, {{F: 0, V: tvInt("int", 4)}, {F: 1, V: tvInt("int", 6)}}, {{F: 0, V: tvInt("int", 2)}}} {
+					for _, hs := range [][]int64{nil, {7, 8}, {7}, {8, 9}} {
+						c.Ops = append(c.Ops, rOp{S: 0, Op: "reset"})
+						if hs != nil {
+							c.Ops = append(c.Ops, rOp{S: 0, Op: "hint", Hint: hs})
+						}
+						c.Ops = append(c.Ops, rOp{S: 0, Op: []string{"retrieve", "docs"}[i%2], A: q}, rOp{S: 0, Op: "raw"})
+					}
+				}
+				add(c)
+			}
+			// an index that holds only catch-all documents (no value on any configured field; the first generation of
+			// many builder histories), then -- same builder -- a targeted document and a second build
+			for _, rebuild := range []int{0, 2} {
+				c := rCase{Fields: []rField{{F: 0, Cont: "default"}, {F: 1, Cont: "default"}}, Rebuild: rebuild}
+				c.Docs = []eDoc{{ID: 1, Cons: []eConj{{}}}, {ID: 7, Cons: []eConj{{}, {}}}}
+				if rebuild > 0 {
+					c.Docs = append(c.Docs, eDoc{ID: 9, Cons: []eConj{{{F: 0, Inc: true, V: tvSlice("[]int", tvInt("int", 30))}}}})
+				}
+				for i, q := range [][]eAssign{nil, {{F: 0, V: tvInt("int", 30)}}, {{F: 0, V: tvInt("int", 31)}, {F: 1, V: tvStr("x")}}, {{F: 1, V: tvStr("x")}}} {
+					c.Ops = append(c.Ops, rOp{S: 0, Op: "reset"}, rOp{S: 0, Op: []string{"retrieve", "docs"}[i%2], A: q}, rOp{S: 0, Op: "raw"})
+				}
+				add(c)
+			}
+			// a field whose only expressions are includes with EMPTY value lists: never satisfiable
+			{
+				c := rCase{Fields: []rField{{F: 0, Cont: "default"}, {F: 1, Cont: "default"}}}
+				c.Docs = []eDoc{{ID: 1, Cons: []eConj{{{F: 0, Inc: true, V: tvSlice("[]int")}}}}, {ID: 2, Cons: []eConj{{{F: 0, Inc: true, V: tvSlice("[]string")}}, {}}}}
+				for i, q := range [][]eAssign{nil, {{F: 0, V: tvInt("int", 30)}}, {{F: 1, V: tvStr("x")}}} {
+					c.Ops = append(c.Ops, rOp{S: 0, Op: "reset"}, rOp{S: 0, Op: []string{"retrieve", "docs"}[i%2], A: q}, rOp{S: 0, Op: "raw"})
+				}
 				add(c)
 			}
 			// value identity is 64 bits wide: values that agree in their low 32 bits (number parser: differing by a
